@@ -623,7 +623,11 @@ def malformation(fmt):
             if depth < 0:
                 return 'unbalanced-braces'
         i += 1
-    return 'unbalanced-braces' if depth else None
+    if depth:
+        return 'unbalanced-braces'
+    if re.search(r'[0-9]\s*(\}|$)', re.sub(r':[^:]*:', '', fmt)):
+        return 'dangling-repeat-count'
+    return None
 
 
 def leading_struct_not_first(dt):
